@@ -757,6 +757,13 @@ def entry_point(c, ln):
     """the parallel entry point a rejected line is about"""
     if ln.get("k") == "march" and ln.get("what") == "marchpar":
         return "MarchOnAttributeParallel"
+    if c["kind"] == "field" and ln.get("k") == "field" and ln.get("api"):
+        return ln["api"]                        # the entry point that added this field (may differ from the case's)
+    if c["kind"] == "field" and ln.get("k") == "march":
+        # the canvas was filled by every field up to fi: name the parallel entry points among them
+        upto = c["fields"][:ln.get("fi", len(c["fields"]) - 1) + 1]
+        par = sorted({f.get("api") or c["api"] for f in upto} - {"AddField"})
+        return "+".join(par) if par else c["api"]
     return api_name(c)
 
 
